@@ -159,7 +159,7 @@ pub fn ed_key() -> BoxedStrategy<KeySpec> {
 pub fn any_key() -> BoxedStrategy<KeySpec> {
     prop_oneof![
         6 => ed_key(),
-        2 => (0..ECDSA_POOL).prop_map(|idx| KeySpec::Ec { idx }),
+        3 => (0..ECDSA_POOL).prop_map(|idx| KeySpec::Ec { idx }),
         1 => (0..RSA_POOL.len(), any::<bool>()).prop_map(|(idx, sha512)| KeySpec::Rsa { idx, sha512 }),
     ]
     .boxed()
